@@ -81,6 +81,7 @@ def gsub_groups(ctx, shim, r, nfonts, per_font, types=(1, 2, 3, 4, 5, 6, 8)):
         g1.append([f"font {fid} {hexf}", f"planinfo {fid} l DFLT - {feats}"])
     o1 = vlib.run_groups(shim, g1)
     groups = []
+    recs = []
     for (fid, rec, feats, hexf, texts), o in zip(fonts, o1):
         if o[0] != "ok" or not o[1].startswith("ok"):
             ctx.violation("generated GSUB font rejected or plan failed", {"stage": "search", "stream": "gsub-interp",
@@ -104,7 +105,8 @@ def gsub_groups(ctx, shim, r, nfonts, per_font, types=(1, 2, 3, 4, 5, 6, 8)):
             st = gsubgen.rand_buffer(r, rec)
             lines.append(f"gsub {fid} l DFLT - {feats} 1 FONT {ft} MAPS {mt} BUF {bufgen.state_str(st)}")
         groups.append(lines)
-    return groups
+        recs.append(rec)
+    return groups, recs
 
 
 def load_corpus():
@@ -133,6 +135,85 @@ def gsub_panic_search(ctx, shim, groups):
     ctx.note_search("gsub-total", n, n, failures=bad,
                     rule="every gsub-interp request (well-formed random GSUB/GDEF recipes incl. self-recursive and deleting "
                          "nested lookups, corpus seeds first) must return normally on the crate")
+
+
+def in_spec_domain(rec, st):
+    """Is this (font, buffer) inside the domain where the OpenType substitution model is unambiguous?
+    Returns (ok, compare_clusters)."""
+    for it in st["I"][:st["n"]]:
+        if it[4] & 0x20:
+            return False, False                      # default-ignorable glyph (HarfBuzz-specific skipping rules)
+    hg, hc, _ = gsubgen.glyph_props(rec)
+    lookups = rec["gsub"]["lookups"]
+    deleting = False
+
+    def single_position(lk):
+        if lk["type"] in (1, 3):
+            return True
+        if lk["type"] == 2:
+            return all(len(s) >= 1 for stt in lk["subtables"] for s in stt["sequences"])
+        return False
+
+    for lk in lookups:
+        flag = lk.get("flag", 0)
+        ignores = flag & 0xFF1E or lk.get("mark_set") is not None
+        if ignores and not hc:
+            return False, False                      # class-based ignoring without GDEF classes: guessed classes
+        if lk["type"] == 4 and ignores:
+            return False, False                      # ligature ids / components decide later matches
+        if lk["type"] == 2 and any(len(s) == 0 for stt in lk["subtables"] for s in stt["sequences"]):
+            deleting = True
+        if lk["type"] in (5, 6):
+            for stt in lk["subtables"]:
+                recs = []
+                if stt["format"] == 3:
+                    recs = list(stt["lookups"])
+                else:
+                    for rs in stt.get("rulesets", stt.get("classsets", [])) or []:
+                        for ru in rs or []:
+                            recs += list(ru["lookups"])
+                for _, li in recs:
+                    if li < len(lookups) and not single_position(lookups[li]):
+                        return False, False          # the specification is silent on shrinking / contextual nesting
+    return True, not deleting
+
+
+def spec_search(ctx, shim, model, groups, recs):
+    """three-way: the crate's GSUB result vs the declarative OpenType substitution model (Spec/OpenTypeSubst.lean)"""
+    a = vlib.run_groups(shim, groups, timeout=300)
+    sgroups = [[g[0]] + ["gsubspec" + ln[4:] for ln in g[1:]] for g in groups]
+    b = vlib.run_groups(model, sgroups, timeout=300)
+    n = indom = withcl = bad = changed = 0
+    for g, rec, xs, ys in zip(groups, recs, a, b):
+        for ln, x, y in zip(g[1:], xs[1:], ys[1:]):
+            n += 1
+            st = bufgen.parse_state(ln.split(" BUF ")[1])
+            ok, cmpcl = in_spec_domain(rec, st)
+            if not ok or not x.startswith("ok ") or " ok=0 " in x:
+                continue
+            indom += 1
+            out = bufgen.parse_state(x[3:])
+            got = [(i[0], i[2]) for i in out["I"][:out["n"]]]
+            t = y.split()
+            want = [] if len(t) < 3 or t[2] == "-" else [tuple(int(v) for v in e.split(":")) for e in t[2].split(",")]
+            if [p[0] for p in got] != [i[0] for i in st["I"][:st["n"]]]:
+                changed += 1
+            if cmpcl:
+                withcl += 1
+                same = got == want
+            else:
+                same = [p[0] for p in got] == [p[0] for p in want]
+            if not same:
+                bad += 1
+                if bad <= 3:
+                    ctx.violation("GSUB result differs from the OpenType substitution model",
+                                  {"stage": "search", "stream": "gsub-spec", "font_line": g[0], "request": ln,
+                                   "recipe": rec, "crate": got, "spec_model": want, "clusters_compared": cmpcl})
+    ctx.note_search("gsub-spec", n, indom, in_domain=indom, clusters_compared=withcl, glyphs_substituted=changed,
+                    deviations=bad,
+                    rule="the gsub-interp requests; non-trivial = inside the documented domain of unambiguity (no default "
+                         "ignorables, ligature lookups without ignore flags, nested lookups single-position and non-shrinking); "
+                         "glyph ids always compared, clusters too unless the font has a deleting lookup")
 
 
 def gsub_classify(ln, out):
@@ -167,8 +248,9 @@ def run(ctx):
     shim = vlib.build_harness()
     ctx.correspond("buf-walks", lines=walks(ctx.rng("walks"), ctx.budget(20000, 300000)), classify=classify, canon=canon)
     zipper_search(ctx, shim, ctx.rng("zipper"), ctx.budget(20000, 300000))
-    groups = gsub_groups(ctx, shim, ctx.rng("gsub"), ctx.budget(300, 6000), 8)
+    groups, recs = gsub_groups(ctx, shim, ctx.rng("gsub"), ctx.budget(300, 6000), 8)
     gsub_panic_search(ctx, shim, groups)
+    spec_search(ctx, shim, vlib.build_model(), groups, recs)
     ctx.correspond("gsub-interp", groups=groups, classify=gsub_classify, canon=canon,
                    only=lambda ln: ln.startswith("gsub "))
 
